@@ -2,12 +2,13 @@ From Coq Require Import String List ZArith NArith.
 From Circ Require Import Lib.Obs Model.HttpResponse.
 Import ListNotations.
 
-(* A write event is compared by length and a polynomial checksum, so that the generated case files stay
-   small (the harness computes the same function over the observed bytes). *)
+(* A write event is stated literally when it is short, otherwise by length and a polynomial checksum, so
+   that the generated case files stay small (the harness computes the same function over the observed bytes). *)
 Definition cksum (w : list N) : N :=
   fold_left (fun a x => (a * 257 + x + 1) mod 4294967291)%N w 7%N.
 
-Definition Tw (w : list N) : T := Tl [Tnat (length w); TN (cksum w)].
+Definition Tw (w : list N) : T :=
+  if Nat.leb (length w) 64 then Tb w else Tl [Tn (-2)%Z; Tnat (length w); TN (cksum w)].
 
 Definition repN {A} (n : N) (l : list A) : list A := rep (N.to_nat n) l.
 
@@ -24,9 +25,16 @@ Definition obs_seq (cs : list cfg) : T := Tlist obs_resp cs.
 (* the model's independent client run on bytes the real server wrote (ties [parse] to http.client) *)
 Definition obs_parse (p : bool * list N) : T :=
   match parse (fst p) (snd p) with
-  | Some (r, rest) => Tl [TN (p_status r); Tb (p_body r); Tbool (p_close r); Tnat (length rest)]
+  | Some (r, rest) => Tl [TN (p_status r); Tw (p_body r); Tbool (p_close r); Tnat (length rest)]
   | None => Tl []
   end.
 
 Definition obs_case (cs : list cfg) (ps : list (bool * list N)) : T :=
   Tl [obs_seq cs; Tlist obs_parse ps].
+
+(* the same observable with every write spelled out; asked for when a disagreement is reported *)
+Definition obs_case_verbose (cs : list cfg) : T :=
+  Tlist (fun c => match respond c with
+                  | Out ws b => Tl [Tlist Tb ws; Tbool b]
+                  | Crash => Tl [Tn (-1)%Z]
+                  end) cs.
